@@ -52,7 +52,9 @@ var (
 
 func c21Label(prefix string, n int) string {
 	d := string(rune('0' + n))
-	return prefix + d + d + d // labels differ in three bytes: no single-byte change maps one to another
+	// labels differ in three bytes (no single-byte change maps one to another)
+	// and are long, like real ciphertexts: a token string has well over 64 characters
+	return prefix + d + d + d + "........................................"
 }
 
 func c21Encrypt(data, key string) (string, error) {
@@ -243,6 +245,10 @@ func c21WorldClock(realClock bool, body func()) {
 	run(func() {
 		caches.Purge(caches.TokenCache)
 		caches.Purge(caches.BlacklistCache)
+		// entries are only lost through explicit operations: natively the sweeper
+		// must not evict them when the (fake) clock jumps
+		_ = caches.SetExpiration(caches.TokenCache, "900000h")
+		_ = caches.SetExpiration(caches.BlacklistCache, "900000h")
 		defer func() {
 			if !sym.Symbolic() {
 				tokens.VerifCloseStore()
